@@ -97,6 +97,18 @@ def conversion (inT outT : Ty) : Option (List Instr) :=
   | .pattern, .bool => some []
   | a, b => if a == b then some [] else none
 
+/-- the comparison operators: the operand of the compare instruction and whether the branch to
+    the "false" arm is `jm` (codegen.go's switch in the comparison case) -/
+def cmpCode : Op → Option (Int × Bool)
+  | .lt => some (-1, false) | .gt => some (1, false) | .le => some (1, true) | .ge => some (-1, true)
+  | .eq => some (0, false) | .ne => some (0, true)
+  | _ => none
+
+/-- the bitwise operators and shifts -/
+def bitOpcode : Op → Option Opcode
+  | .bitand => some .and | .bitor => some .or | .xor => some .xor | .shl => some .shl | .shr => some .shr
+  | _ => none
+
 def builtinOp (name : String) : Option Opcode :=
   match name with
   | "getfilename" => some .getfilename | "len" => some .length | "settime" => some .settime
@@ -277,9 +289,7 @@ def lowerE (refs : Refs) : Nat → Node → LM E
       | .lt | .gt | .le | .ge | .eq | .ne => do
         let a ← lowerE refs fuel l
         let b ← lowerE refs fuel r
-        let (arg, jm) : Int × Bool := match op with
-          | .lt => (-1, false) | .gt => (1, false) | .le => (1, true) | .ge => (-1, true)
-          | .eq => (0, false) | _ => (0, true)
+        let (arg, jm) : Int × Bool := (cmpCode op).getD (0, true)
         let lt := tyOf l
         let cmpOp : Opcode :=
           if lt.root == (tyOf r).root then
@@ -296,8 +306,7 @@ def lowerE (refs : Refs) : Nat → Node → LM E
       | .bitand | .bitor | .xor | .shl | .shr => do
         let a ← lowerE refs fuel l
         let b ← lowerE refs fuel r
-        let oc : Opcode := match op with
-          | .bitand => .and | .bitor => .or | .xor => .xor | .shl => .shl | _ => .shr
+        let oc : Opcode := (bitOpcode op).getD .xor
         pure (.prim [i0 oc] (.cons a (.cons b .nil)))
       | .match | .notMatch => do
         let a ← lowerE refs fuel l
